@@ -496,6 +496,10 @@ func GenLoop(rt *rapid.T) LoopCase {
 		}
 	}
 	s := sb.String()
+	if !strings.Contains(s, "take") && !strings.Contains(s, "boom") && !strings.Contains(s, "recx") && !strings.Contains(s, "\"\"") && hx.Chance(rt, 30, "lbadtail") {
+		tail := []string{"rec \"unfinished", "rec a \"b c", "r2 \"two\nlines", "  rec x=1 \"", "\"rec"}[hx.Uniform(rt, 5, "ltail")]
+		return LoopCase{In: B(s), Tail: B(tail)}
+	}
 	if hx.Chance(rt, 25, "lnofinalnl") {
 		s = strings.TrimSuffix(s, "\n")
 	}
